@@ -26,7 +26,7 @@ def usq (x : Fin 3 → ℝ) : ℝ := x 0 * x 0 + x 1 * x 1 + x 2 * x 2
 theorem usq_eq (x : Fin 3 → ℝ) : usq x = nsq x := by unfold usq nsq; ring
 
 theorem so3_hat (x : Fin 3 → ℝ) : so3.toMatrix.M_mat x = hat x := by
-  mat_entries <;> simp [cas_defs, cas_real, hat]
+  mat_entries <;> simp [cas_defs, cas_real, hat] <;> (try ring1)
 
 /-! ## SO(3), DCM form -/
 theorem SO3Dcm_exp_core (x : Fin 3 → ℝ) :
@@ -79,12 +79,12 @@ theorem SO3Quat_exp_zero : SO3Quat.exp.r_vec (0 : Fin 3 → ℝ) = ![1, 0, 0, 0]
 /-! ## SO(2), SE(2), ℝⁿ -/
 theorem SO2_exp (x : ℝ) : SO2.toMatrix.M_mat (SO2.exp.r x) = exp (so2.toMatrix.M_mat x) := by
   have h : so2.toMatrix.M_mat x = so2Hat x := by
-    mat_entries <;> simp [cas_defs, cas_real, so2Hat]
+    mat_entries <;> simp [cas_defs, cas_real, so2Hat] <;> (try ring1)
   rw [h, exp_so2Hat]
-  mat_entries <;> simp [cas_defs, cas_real]
+  mat_entries <;> simp [cas_defs, cas_real] <;> (try ring1)
 
 theorem se2_hat (x : Fin 3 → ℝ) : se2.toMatrix.M_mat x = se2Hat (x 0) (x 1) (x 2) := by
-  mat_entries <;> simp [cas_defs, cas_real, se2Hat]
+  mat_entries <;> simp [cas_defs, cas_real, se2Hat] <;> (try ring1)
 
 theorem SE2_exp_core (x : Fin 3 → ℝ) :
     SE2.toMatrix.M_mat (SE2.exp.r_vec x)
@@ -110,20 +110,20 @@ theorem R3_exp (x : Fin 3 → ℝ) : R3.toMatrix.M_mat (R3.exp.r_vec x) = exp (r
   have h4 : r3.toMatrix.M_mat x ^ 4 = (-((0:ℝ) ^ 2)) • r3.toMatrix.M_mat x ^ 2 := by
     have e : r3.toMatrix.M_mat x ^ 4 = r3.toMatrix.M_mat x ^ 2 * r3.toMatrix.M_mat x ^ 2 := by rw [← pow_add]
     rw [e, pow_two]
-    mat_entries <;> simp [cas_defs, cas_real, Matrix.mul_apply, Fin.sum_univ_succ]
+    mat_entries <;> simp [cas_defs, cas_real, Matrix.mul_apply, Fin.sum_univ_succ] <;> (try ring1)
   rw [matrix_exp_closed_form _ _ h4]
   have e3 : ∀ (B : Matrix (Fin 4) (Fin 4) ℝ), B ^ 3 = B * B * B := fun B => by rw [pow_succ, pow_two]
   rw [e3, pow_two]
-  mat_entries <;> simp [cas_defs, cas_real, Matrix.mul_apply, Fin.sum_univ_succ, Matrix.one_apply]
+  mat_entries <;> simp [cas_defs, cas_real, Matrix.mul_apply, Fin.sum_univ_succ, Matrix.one_apply] <;> (try ring1)
 theorem R2_exp (x : Fin 2 → ℝ) : R2.toMatrix.M_mat (R2.exp.r_vec x) = exp (r2.toMatrix.M_mat x) := by
   have h4 : r2.toMatrix.M_mat x ^ 4 = (-((0:ℝ) ^ 2)) • r2.toMatrix.M_mat x ^ 2 := by
     have e : r2.toMatrix.M_mat x ^ 4 = r2.toMatrix.M_mat x ^ 2 * r2.toMatrix.M_mat x ^ 2 := by rw [← pow_add]
     rw [e, pow_two]
-    mat_entries <;> simp [cas_defs, cas_real, Matrix.mul_apply, Fin.sum_univ_succ]
+    mat_entries <;> simp [cas_defs, cas_real, Matrix.mul_apply, Fin.sum_univ_succ] <;> (try ring1)
   rw [matrix_exp_closed_form _ _ h4]
   have e3 : ∀ (B : Matrix (Fin 3) (Fin 3) ℝ), B ^ 3 = B * B * B := fun B => by rw [pow_succ, pow_two]
   rw [e3, pow_two]
-  mat_entries <;> simp [cas_defs, cas_real, Matrix.mul_apply, Fin.sum_univ_succ, Matrix.one_apply]
+  mat_entries <;> simp [cas_defs, cas_real, Matrix.mul_apply, Fin.sum_univ_succ, Matrix.one_apply] <;> (try ring1)
 
 
 /-! ## SO(3), MRP form (with the shadow switch) -/
@@ -148,14 +148,14 @@ theorem SO3Mrp_exp_spec (x : Fin 3 → ℝ) :
       simpa [nsq, pow_two] using h
     rw [if_pos h]
     unfold usq at h'
-    fin_cases i <;> simp [cas_defs, cas_real, usq, h', nsq, pow_two]
+    fin_cases i <;> simp [cas_defs, cas_real, usq, h', nsq, pow_two] <;> (try ring1)
   · have h' : ¬ 1 < SqSeries.tan_quarter_over_x (usq x) * x 0 * (SqSeries.tan_quarter_over_x (usq x) * x 0)
         + SqSeries.tan_quarter_over_x (usq x) * x 1 * (SqSeries.tan_quarter_over_x (usq x) * x 1)
         + SqSeries.tan_quarter_over_x (usq x) * x 2 * (SqSeries.tan_quarter_over_x (usq x) * x 2) := by
       simpa [nsq, pow_two] using h
     rw [if_neg h]
     unfold usq at h'
-    fin_cases i <;> simp [cas_defs, cas_real, usq, h']
+    fin_cases i <;> simp [cas_defs, cas_real, usq, h'] <;> (try ring1)
 
 /-- MRP exponential on the closed-form cell, for every angle with θ/4 away from the poles of tan
     (in particular all θ in [√eps, 2π)), shadow switch included: same matrix as exp(ω^) and norm ≤ 1 -/
@@ -181,7 +181,7 @@ def rotv (x : Fin 6 → ℝ) : Fin 3 → ℝ := ![x 3, x 4, x 5]
 def trv (x : Fin 6 → ℝ) : Fin 3 → ℝ := ![x 0, x 1, x 2]
 
 theorem se3_hat (x : Fin 6 → ℝ) : se3.toMatrix.M_mat x = se3Hat (trv x) (rotv x) := by
-  mat_entries <;> simp [cas_defs, cas_real, se3Hat, trv, rotv]
+  mat_entries <;> simp [cas_defs, cas_real, se3Hat, trv, rotv] <;> (try ring1)
 
 /-- translational part: the code multiplies by J_l = 1 + A ω^ + B ω^² with series coefficients A, B -/
 theorem SE3Quat_exp_core (x : Fin 6 → ℝ) :
@@ -225,7 +225,7 @@ theorem SE3Mrp_exp (x : Fin 6 → ℝ) (h : eps ≤ usq (rotv x))
 /-- at zero rotation the translation passes through unchanged (J_l(0) = 1 acts on v) -/
 theorem SE3Quat_exp_zero_rot (v : Fin 3 → ℝ) :
     SE3Quat.exp.r_vec ![v 0, v 1, v 2, 0, 0, 0] = ![v 0, v 1, v 2, 1, 0, 0, 0] := by
-  funext i; fin_cases i <;> simp [cas_defs, cas_real, sq_cos_x_zero, sq_sin_x_over_x_zero]
+  funext i; fin_cases i <;> simp [cas_defs, cas_real, sq_cos_x_zero, sq_sin_x_over_x_zero] <;> (try ring1)
 
 /-! non-vacuity: a rotation vector on the closed-form cell with θ > π -/
 example : eps ≤ usq ![0, 4, 0] / 4 := by
